@@ -435,6 +435,7 @@ func c20Run(cfg c20Cfg) func(x *explore.Ctx) {
 		var liveBuf []c20LiveRow
 		hist := make([]byte, 0, 96)
 
+		prevPi := byte(0xff)
 		for step := 0; step < L; step++ {
 			pi, nrot := firstPkt, firstRot
 			if step > 0 {
@@ -442,6 +443,8 @@ func c20Run(cfg c20Cfg) func(x *explore.Ctx) {
 				nrot = x.Choose(c20MaxRot+1, c20RotLabels[step])
 			}
 			checked := !x.Inherited() // otherwise the parent execution made and checked this very step
+			lastPi := prevPi
+			prevPi = byte(pi)
 			p := &a.pkts[pi]
 			hist = append(append(hist, ' '), p.name...)
 
@@ -564,6 +567,11 @@ func c20Run(cfg c20Cfg) func(x *explore.Ctx) {
 			liveBuf = c20Live(fl, liveBuf, true)
 			canon.Reset()
 			canon.WriteByte(byte(step))
+			// the flow log alone is not the whole state of every plausible implementation: anything that
+			// remembers the most recent packet or flow (a lookup cache) survives rotations. The identities of the
+			// last two packets are part of the key, so that histories are merged only if they also end alike.
+			canon.WriteByte(byte(pi))
+			canon.WriteByte(lastPi)
 			for _, lr := range liveBuf {
 				canon.WriteString(lr.raw)
 				c20PutCounters(&canon, lr.c)
@@ -759,7 +767,7 @@ const c20Rule = "history = packet sequence over the alphabet (quick 12: v4 TCP S
 func init() {
 	register("C20", &explore.Scenario{
 		ID: "C20", Name: "flow log + rotation vs per-conversation accounting, every step", Level: "model_checking",
-		Rule:  c20Rule + "all histories of 4 (thorough 6) packets; after every packet and every rotation: per conversation the flow log holds exactly the packets since the last rotation, every rotated map has exactly one row per conversation with traffic in the interval (flows differing only in source port share it, both directions in it, other destination port separate), counters per direction equal, nothing for idle flows, written + in memory = parsed. state = (position, flow-log entries with counters, rows of all written blocks), explored once; non-trivial = histories that wrote a two-direction row, merged source ports, kept / pruned / re-used an idle flow or wrote an empty block, distinct by final state",
+		Rule:  c20Rule + "all histories of 4 (thorough 6) packets; after every packet and every rotation: per conversation the flow log holds exactly the packets since the last rotation, every rotated map has exactly one row per conversation with traffic in the interval (flows differing only in source port share it, both directions in it, other destination port separate), counters per direction equal, nothing for idle flows, written + in memory = parsed. state = (position, the last two packets, flow-log entries with counters, rows of all written blocks), explored once; non-trivial = histories that wrote a two-direction row, merged source ports, kept / pruned / re-used an idle flow or wrote an empty block, distinct by final state",
 		Cases: c20Cases(false),
 		Bound: func(string) int { return 0 },
 		Run: c20Run(c20Cfg{length: func(th bool) int {
